@@ -21,7 +21,7 @@ PRIMES = [p for p in range(2, 1200) if all(p % q for q in range(2, int(p**0.5) +
 
 
 ITEMS_ALT = {
-    "a": ["a1", "a2", "a3", "a4", "a5", "a6", "a7"],
+    "a": ["a1", "a10", "a100", "a2", "a 1", "A1", "a1 "],  # prefixes of each other, case and blank variants
     "b": [2001, 2002, 2003, 2004, 2005, 2006, 2007],  # consecutive integers (look like positions / years)
     "c": ["c1", "c2", "c3", "c4", "c5", "c6", "c7"],
     "d": [1.5, 2.5, 3.5, 4.5, 5.5, 6.5, 7.5],
